@@ -344,6 +344,11 @@ class OpsMixin(object):
             if attr == "deriv":
                 return self.hasattr(base.f, "deriv" + str(base.order + 1) if base.order + 1 > 1 else "deriv")
             return False
+        if isinstance(base, ClassV):
+            for c in base.ci.mro():
+                if isinstance(c, ClassInfo) and (attr in c.methods or attr in c.class_attrs):
+                    return True
+            return False
         if isinstance(base, NTV):
             return attr in base.cls.fields
         if isinstance(base, (Opaque, LookupV)):
@@ -556,6 +561,8 @@ class OpsMixin(object):
                 self.err(node, "instance of %s is not callable" % fn.ci.name)
             clos = getattr(fn, "closure", None)
             return self.call_function(FuncV(c, closure=clos, selfv=fn), args, kwargs, node)
+        if isinstance(fn, PyObjV) and hasattr(fn.obj, "m___call__"):
+            return fn.obj.m___call__(self, args, kwargs)
         if isinstance(fn, Opaque):
             if kwargs:
                 self.err(node, "keyword call of opaque callable")
